@@ -339,6 +339,14 @@ def run(ck, facts, tier):
             has_call(dth, "ok_or_else") or has_call(dth, "Try::branch")
         ok = len(so) == 1 and peel(so[0]["args"][1]).get("n") == "target_binder" and len(si) == 1 and var_name(si[0]["args"][1]) in ob and fails
         if ok:
+            # order: the capture test (shifted_out_to fails when the variable belongs to a binder being removed) is made on the variable
+            # as the caller sees it - BEFORE the term's internal binders are added back; the other way round a variable under an
+            # internal binder passes the test and is captured by that binder
+            from kit import let_inits as _li, resolve_var as _rv
+            recv = _rv(so[0]["args"][0], _li(dth))
+            if has_call(recv, "shifted_in_from") or has_call(so[0]["args"][0], "shifted_in_from"):
+                ok = False
+        if ok:
             ck.ok(R, "DownShifter::adjust", "shifted_out_to(target_binder)? then shifted_in_from(outer_binder)")
         else:
             ck.violation(R, "DownShifter::adjust", b.where(), "must shift out by target_binder (failing if impossible) then in by outer_binder")
